@@ -144,6 +144,27 @@ def edit_power(path, kind, rng):
                 else:
                     new.append(r)
             rows = new
+    elif kind.startswith('overlap-'):
+        # one component has two regions that overlap: a second region that
+        # covers the upper half of its first cell and ends where that cell
+        # ends ('hi': shared upper bound), or covers the lower half and
+        # starts where it starts ('lo': shared lower bound)
+        _, how, comp = kind.split('-')
+        code = {'pins': '1', 'duct': '2', 'cool': '3'}[comp]
+        mine = [r for r in rows if r.split(',')[1] == code]
+        if mine:
+            z0 = min(float(r.split(',')[2]) for r in mine)
+            extra = []
+            for r in mine:
+                p = r.split(',')
+                if float(p[2]) == z0:
+                    zm = 0.5 * (float(p[2]) + float(p[3]))
+                    if how == 'hi':
+                        p[2] = repr(zm)
+                    else:
+                        p[3] = repr(zm)
+                    extra.append(','.join(p))
+            rows = rows + extra
     elif kind == 'zgap':
         # shift the lower bound of the upper cells upward: a gap
         zs = sorted({float(r.split(',')[2]) for r in rows})
@@ -522,8 +543,34 @@ def targeted(rng, base, tier):
                'count-less-pins', 'count-less-duct', 'count-less-cool',
                'count-more-pins', 'count-more-duct', 'count-more-cool',
                'count-lumped-cool', 'count-lumped-duct',
-               'cells-pins', 'cells-duct', 'cells-cool'):
+               'cells-pins', 'cells-duct', 'cells-cool',
+               'overlap-hi-pins', 'overlap-hi-duct', 'overlap-hi-cool',
+               'overlap-lo-pins', 'overlap-lo-cool'):
         add('power-' + ed, lambda c, t, r: None, ['PowerProfile'], badpow,
+            pedit=ed)
+    # overlapping regions of one component in a profile with one power cell
+    # and with three (the bounds of the other regions are then what the
+    # reader can compare the overlapping one with)
+    def one_cell(c, t, r):
+        for p in c['power'].values():
+            p['z'] = [p['z'][0], p['z'][-1]]
+            for comp in ('pins', 'duct', 'cool'):
+                if p.get(comp) is not None:
+                    p[comp] = p[comp][:1]
+
+    def three_cells(c, t, r):
+        for p in c['power'].values():
+            z0, z1 = p['z'][0], p['z'][-1]
+            p['z'] = [z0, z0 + (z1 - z0) / 3, z0 + 2 * (z1 - z0) / 3, z1]
+            for comp in ('pins', 'duct', 'cool'):
+                if p.get(comp) is not None:
+                    cells = list(p[comp])
+                    p[comp] = (cells + [copy.deepcopy(cells[-1])] * 3)[:3]
+    for ed in ('overlap-hi-pins', 'overlap-hi-duct', 'overlap-hi-cool',
+               'overlap-lo-pins'):
+        add('power-one-cell-' + ed, one_cell, ['PowerProfile'], badpow,
+            pedit=ed)
+        add('power-three-cells-' + ed, three_cells, ['PowerProfile'], badpow,
             pedit=ed)
     if len(base(random.Random(1))[0]['types']) > 1:
         def unequal(c, t, r):
